@@ -58,10 +58,21 @@ def pipeline(job):
     rng = random.Random(pyseed)
     total = sum(Ts) * N
     cells = distinct_cells(rng, total)
+    in_dtype = np.float64
+    if rng.random() < 0.15:
+        # a float32 series (a stacked row must still be the input row, value for value): distinct finite float32 values
+        in_dtype = np.float32
+        vals = set()
+        while len(vals) < total:
+            v = np.float32(rng.uniform(-1e6, 1e6))
+            if np.isfinite(v) and v != 0:
+                vals.add(float(v))
+        cells = np.array(sorted(vals), dtype=np.float64)
+        rng.shuffle(cells)
     lookup = {int(b): i for i, b in enumerate(cells.view(np.uint64))}
     series, off = [], 0
     for T in Ts:
-        a = cells[off:off + T * N].reshape(T, N).copy()
+        a = cells[off:off + T * N].reshape(T, N).astype(in_dtype)
         if rng.random() < 0.3:
             a = np.asfortranarray(a)
         if rng.random() < 0.3:
